@@ -188,7 +188,8 @@ def run(ctx):
                 'boundary values (ints of thousands of bits, timestamps over +-10^12 and the year boundaries 0/999/1000/9999/'
                 '10000); per value three modes: render, parse back at the same type, compare values; compare layout shape with '
                 'the model (comb layout per mode, timestamp int/string rule, domain types as bytes in optimized); distinct by '
-                '(type, value, mode); non-trivial = composite type or out-of-range timestamp' % ctx.pick(3, 4))
+                '(type, value, mode); non-trivial = composite type or out-of-range timestamp; plus the recorded arguments and storage parts of '
+                'the mainnet corpus in the repository tests under their real annotated types' % ctx.pick(3, 4))
     for i in range(n):
         if i % 5 == 0:
             t = rng.choice([T.TIMESTAMP, T.option(T.TIMESTAMP), T.pair(T.TIMESTAMP, T.INT), T.list_(T.TIMESTAMP), T.map_(T.TIMESTAMP, T.NAT)])
@@ -204,6 +205,12 @@ def run(ctx):
         judge(ctx, t, v, an)
         if T.contains(t, 'address') and T.comparable(t):
             judge(ctx, t, v, an, spelled_default=True)
+    # values with the shapes real contracts use: recorded arguments and storage parts of the mainnet corpus
+    from rv.gen import corpus as C
+    for k, (label, texpr, t, v, src) in enumerate(C.typed_values()):
+        if ctx.mine(k) and T.packable(t):
+            ctx.count('corpus_values')
+            judge(ctx, t, v, C.annot_fn(texpr) if k % 2 == 0 else None)
     ctx.require('roundtrips', 300)
     ctx.require('layouts_compared' if not ctx.violations else 'roundtrips', 100)
 
